@@ -8,7 +8,7 @@
    the hardware computes (this is the bit-exact differential tie); exactness of the integer -> float encoding
    inside floor/ceil. *)
 From Coq Require Import SpecFloat.
-From Octo Require Import NumFns NumFnsProofs.
+From Octo Require Import NumFns NumFnsProofs LayoutProofs.
 
 (* + - * and unary - on Int and Duration: the result is the exact result wrapped to int64, it is an int64, and it
    is the exact result whenever that fits.  (Duration uses the same functions: both are int64 in Go.) *)
@@ -128,15 +128,52 @@ Proof.
 Qed.
 Print Assumptions C13_coalesce_cases.
 
-(* Layout fixer, struct case, PARTIAL: for a struct whose selected fields are scalars, target field j is the source
-   field the mapping names, NULL where the source has no such field (index -1).  Full statement (nested structs,
-   lists, tuples, unions; mapping = calculateMapping(target, source) selecting fields BY NAME, i.e.
-   fix_layout (calc_mapping tgt src) v = reshape tgt src v for every v that fits src) is not proved: it is
-   checked case by case by the engine (c13_spec compares the implementation with [reshape]). *)
-Theorem C13_layout_partial : forall st li tu fields, Forall (flat_entry fields) st ->
+(* Layout fixer, in full: nested structs, lists, tuples and unions.  If the output type tgt covers the argument type
+   src ([tcovers]: same shapes; a struct field is looked up BY NAME in the argument type — sourceIndices, the last
+   duplicate wins — and covered recursively, output fields the argument lacks and argument fields the output lacks
+   are both fine; list element covered; the argument tuple is not longer than the output tuple; unions: no union
+   directly inside a union, and against a non-union output every alternative has the output's kind), and v is a
+   value of src as far as the fixer looks at it ([vfits]), then calculateMapping(tgt, src) succeeds and fixLayout
+   with that mapping returns [reshape tgt src v]: field by field by name, NULL for absent fields, elementwise on
+   lists and tuples, a shorter tuple padded with NULLs, union alternatives chosen by the kind of the value.
+   n is the model's fuel (Go has none): the statement holds at every fuel at which the two checkers accept, and
+   they reject (false) — never accept wrongly — when the fuel is below the nesting depth. *)
+Theorem C13_layout : forall n tgt src v,
+  tcovers n tgt src = true -> vfits n tgt src v = true ->
+  exists m, calc_mapping n tgt src = Ok m /\ fix_layout m v = Ok (reshape n tgt src v).
+Proof. exact layout_full. Qed.
+Print Assumptions C13_layout.
+
+(* ... and through the entry point: NewObjectLayoutFixer(tgt, srcs) + Coalesce.Evaluate on k NULLs, then v, then
+   anything: the result is v in the output layout, k+1 arguments evaluated. *)
+Theorem C13_coalesce_layout : forall tgt srcs nulls v post src,
+  Forall (fun s => tcovers mapping_fuel tgt s = true) srcs ->
+  Forall (fun a => a = AVal VNull) nulls -> v <> VNull ->
+  nth_error srcs (length nulls) = Some src -> vfits mapping_fuel tgt src v = true ->
+  coalesce_typed tgt srcs (nulls ++ AVal v :: post) =
+    (Ok (reshape mapping_fuel tgt src v), Z.of_nat (length nulls) + 1).
+Proof. exact coalesce_typed_layout. Qed.
+Print Assumptions C13_coalesce_layout.
+
+(* Non-vacuity of C13_layout: a nullable struct argument {b: Int, a: [{y: Str, x: Int}], t: (Int)} into the output
+   {a: [{x: Int | NULL, z: Int}] , c: Float | NULL, t: (Int, Str | NULL)} | NULL — reordering, nesting in a list,
+   an absent field, a dropped field, a padded tuple, unions on both sides. *)
+Example C13_layout_satisfiable :
+  let inner_t := TStruct [([120], TUnion [TPrim 1; TPrim 0]); ([122], TUnion [TPrim 0; TPrim 1])] in
+  let inner_s := TStruct [([121], TPrim 4); ([120], TPrim 1)] in
+  let tgt := TUnion [TStruct [([97], TList (Some inner_t)); ([99], TUnion [TPrim 2; TPrim 0]);
+                              ([116], TTuple [TPrim 1; TUnion [TPrim 4; TPrim 0]])]; TPrim 0] in
+  let src := TUnion [TPrim 0; TStruct [([98], TPrim 1); ([97], TList (Some inner_s)); ([116], TTuple [TPrim 1])]] in
+  let v := VStruct [VInt 5; VList [VStruct [VStr [104]; VInt 7]]; VTuple [VInt 9]] in
+  tcovers 9 tgt src = true /\ vfits 9 tgt src v = true /\
+  reshape 9 tgt src v = VStruct [VList [VStruct [VInt 7; VNull]]; VNull; VTuple [VInt 9; VNull]].
+Proof. repeat split. Qed.
+
+(* The earlier partial statement, kept: on a raw mapping, for a struct whose selected fields are scalars. *)
+Theorem C13_layout_flat_struct : forall st li tu fields, Forall (flat_entry fields) st ->
   fix_layout (LMap (Some st) li tu) (VStruct fields) = Ok (VStruct (map (pick_field fields) st)).
 Proof. exact fix_layout_flat_struct. Qed.
-Print Assumptions C13_layout_partial.
+Print Assumptions C13_layout_flat_struct.
 
 (* The pinned fixLayout panics on every non-empty tuple (it indexes value.List of a tuple value). *)
 Theorem C13_layout_tuple_pinned_refuted : exists m v, is_panic (fix_layout_pinned m v) = true /\ fix_layout m v = Ok v.
@@ -184,8 +221,9 @@ Proof.
   constructor; [right; cbn; repeat split; lia|constructor].
 Qed.
 
-(* Known finding (class coalesce-tuple-length): calculateMapping panics when an argument's tuple type is shorter
-   than the output tuple type — the model reproduces it. *)
-Theorem C13_mapping_tuple_length_refuted : exists tgt src, calc_mapping mapping_fuel tgt src = Panic P_index.
-Proof. exists (TTuple [TPrim 1; TPrim 1; TPrim 1]), (TTuple [TPrim 1; TPrim 1]). reflexivity. Qed.
-Print Assumptions C13_mapping_tuple_length_refuted.
+(* The code before `fix: COALESCE over tuples of different lengths pads the shorter tuple with NULLs`: calculateMapping
+   panics when an argument's tuple type is shorter than the output tuple type; the fixed model maps it. *)
+Theorem C13_mapping_tuple_length_pinned_refuted : exists tgt src,
+  calc_mapping_pinned mapping_fuel tgt src = Panic P_index /\ is_ok (calc_mapping mapping_fuel tgt src) = true.
+Proof. exists (TTuple [TPrim 1; TPrim 1; TPrim 1]), (TTuple [TPrim 1; TPrim 1]). split; reflexivity. Qed.
+Print Assumptions C13_mapping_tuple_length_pinned_refuted.
